@@ -264,7 +264,9 @@ func VPH_pathChain() {
 // newest commit; the root is a reference to the tag, to the commit, or both.
 func VPH_scanPaths() {
 	sc := &vpScan{}
-	ncommits := 1 + vp_Choice("commits", 2)
+	ncommits := 1 + vp_Choice("commits", 4)
+	// commits 2..n have one parent and equal sizes (ties); optionally the newest is bigger
+	sc.bigTip = vp_Choice("big-tip", 2) == 1
 	vpScript(sc, ncommits, true, 5, 9)
 	var tagOID, tipOID, treeOID git.OID
 	m := &vpRepoModel{kind: map[git.OID]string{}, entries: map[git.OID]map[string]git.OID{}, treeOf: map[git.OID]git.OID{}, target: map[git.OID]git.OID{}, names: map[string]git.OID{}}
@@ -342,5 +344,13 @@ func VPH_scanPaths() {
 	check("max parents", hs.MaxParentCountCommit, "commit")
 	check("max tag depth", hs.MaxTagDepthTag, "tag")
 	vp_Assert(hs.MaxBlobSizeBlob != nil && hs.MaxTreeEntriesTree != nil && hs.MaxCommitSizeCommit != nil, "the maxima are cited")
+	// the cited commits attain the reported values (ties may be resolved either way)
+	if p := hs.MaxCommitSizeCommit; p != nil && sc.objs[p.OID] != nil {
+		vp_Assert(uint64(len(sc.objs[p.OID].data)) == uint64(hs.MaxCommitSize), "the commit cited for the biggest commit has the reported size")
+	}
+	if p := hs.MaxParentCountCommit; p != nil && sc.objs[p.OID] != nil {
+		np := strings.Count(string(sc.objs[p.OID].data), "\nparent ")
+		vp_Assert(uint64(np) == uint64(hs.MaxParentCount), "the commit cited for the most parents has the reported number of parents")
+	}
 	vp_Reach("end")
 }
